@@ -190,7 +190,7 @@ func c17lExec(raw json.RawMessage) interface{} {
 	obs := c17lObs{Snaps: []c17lSnap{}}
 	skipped := []int{}
 	wait := func() (bool, bool, int) {
-		deadline := time.Now().Add(5 * time.Second)
+		deadline := time.Now().Add(40 * time.Second)
 		for i := 0; ; i++ {
 			runtime.Gosched()
 			ok, inInner, adj := c17lScan()
@@ -228,7 +228,7 @@ func c17lExec(raw json.RawMessage) interface{} {
 	for i, op := range in.Ops {
 		switch op.Op {
 		case "dial":
-			c, err := net.DialTimeout("tcp", tl.Addr().String(), 3*time.Second)
+			c, err := net.DialTimeout("tcp", tl.Addr().String(), 40*time.Second)
 			if err != nil {
 				skipped = append(skipped, i)
 				break
@@ -284,7 +284,7 @@ func c17lExec(raw json.RawMessage) interface{} {
 			continue
 		}
 		b := make([]byte, 1)
-		sc.SetReadDeadline(time.Now().Add(2 * time.Second))
+		sc.SetReadDeadline(time.Now().Add(40 * time.Second))
 		if n, _ := sc.Read(b); n == 1 && b[0] == byte(i) {
 			obs.Alive++
 		}
@@ -306,7 +306,7 @@ func c17lExec(raw json.RawMessage) interface{} {
 	}
 	select {
 	case <-accDone:
-	case <-time.After(2 * time.Second):
+	case <-time.After(40 * time.Second):
 	}
 	for i := 0; i < 64; i++ {
 		_, ws := c17lPeek(l)
@@ -362,5 +362,5 @@ func c17lGen(r *verifh.Rand, i int) interface{} {
 }
 
 func TestVerifC17Listener(t *testing.T) {
-	verifh.Run(t, c17lGen, c17lExec, 30*time.Second)
+	verifh.Run(t, c17lGen, c17lExec, 180*time.Second)
 }
